@@ -179,6 +179,25 @@ func (propC16) Gen(r *Rng, run uint64, tier string) *Plan {
 	}
 	s.Start, s.StartSp = genInstant(r.Sub("start"), s.End-3600*sec)
 	s.SinceNs, s.SinceTxt = genPromDuration(r.Sub("since"))
+	if r.Bool(0.1) {
+		// whole days, weeks or years: calendar arithmetic and absolute arithmetic differ across a DST switch
+		d := int64(1 + r.Intn(9))
+		unit, ns := "d", int64(24*3600)*sec
+		if r.Bool(0.3) {
+			unit, ns = "w", int64(7*24*3600)*sec
+			d = int64(1 + r.Intn(3))
+		}
+		s.SinceNs, s.SinceTxt = d*ns, fmt.Sprintf("%d%s", d, unit)
+		s.HasSince = true
+		if r.Bool(0.5) {
+			// a few days after the last Sunday of March or October of some year (European and US switches are near)
+			year := 2002 + r.Intn(190)
+			month := []time.Month{time.March, time.October, time.November, time.April}[r.Intn(4)]
+			t := time.Date(year, month, 20+r.Intn(12), r.Intn(24), r.Intn(60), r.Intn(60), r.Intn(1_000_000_000), time.UTC)
+			s.Now = t.UnixNano()
+			s.HasStart = false
+		}
+	}
 	s.StepTxt = Pick(r, []string{"1", "15", "0.5", "2.25", "30s", "1m", "1h30m", "1d", "250ms", "1e3"})
 	if r.Bool(0.06) {
 		s.TinyStep, s.HasStep = true, true
@@ -218,6 +237,10 @@ func (propC16) Gen(r *Rng, run uint64, tier string) *Plan {
 		}
 	}
 	p.CLI = &CLI{Now: s.Now, Argv: s.Argv(r.Sub("argv"))}
+	if r.Bool(0.4) {
+		// the user's machine is rarely on UTC; zones with daylight saving included
+		p.CLI.TZ = Pick(r, []string{"Europe/Berlin", "America/New_York", "Australia/Lord_Howe", "Asia/Kolkata", "America/St_Johns", "Pacific/Apia"})
+	}
 	p.Tags["spec"] = mustJSON(s)
 	spec := WorldSpec{NMin: 1, NMax: 1, RecMin: 0, RecMax: 3, Lo: s.Now - 3600*sec, Hi: s.Now, Msg: "token", AllNamed: true, NoHuge: true}
 	p.World = GenWorld(r.Sub("world"), spec)
